@@ -147,6 +147,21 @@ def path(c, job):
             c.prove(f"C20.E {kind}-error-detected", s_not(s_eq(ref_crc(e), 0)), info=dict(kind=kind))
             if not c.symbolic:
                 c.prove(f"C20.E {kind}-error-detected", m.crc7(e) != 0, info=dict(kind=kind, through="real"))
+        elif kind == "reuse":
+            # history: the same list object is checksummed, changed in place and checksummed again
+            n = job["n"]
+            data = _bytes_of(c, "d", n)
+            first = m.crc7(data)
+            e = c.bitvec("flip", 8)
+            pos = c.choose("pos", n)
+            old = data[pos]
+            data[pos] = old ^ e
+            second = m.crc7(data)
+            c.reach("reuse")
+            c.prove("C20.H same-buffer-after-in-place-change", s_eq(second, ref_crc(list(data))), info=dict(n=n, pos=pos))
+            c.prove("C20.H first-call", s_eq(first, ref_crc([old if i == pos else x for i, x in enumerate(data)])), info=dict(n=n))
+            third = m.crc7(tuple(data))
+            c.prove("C20.H other-sequence-type-same-content", s_eq(third, second))
         elif kind == "bijection":
             x = c.bitvec("x", 8)
             y = c.bitvec("y", 8)
@@ -161,7 +176,7 @@ class C20(Spec):
     id = "C20"
     design_ref = "DESIGN.md §7 C20"
     real_capable = True
-    clauses = ["C20.T", "C20.L", "C20.D", "C20.R", "C20.X", "C20.E single", "C20.E double", "C20.E burst", "C20.B"]
+    clauses = ["C20.T", "C20.L", "C20.D", "C20.R", "C20.X", "C20.E single", "C20.E double", "C20.E burst", "C20.B", "C20.H"]
     stubs = ["robotpy_ext.misc.crc7._crc7_table replaced by a z3 term built from the real table contents (ITE chain) or an uninterpreted function (length induction)"]
     assumptions = ["message bytes are integers in [0,255] (bytes / bytearray / list of ints)"]
     outside = ["data items outside [0,255] (IndexError / other table rows are not part of the statement)",
@@ -174,6 +189,7 @@ class C20(Spec):
         j += [dict(kind="direct", n=n) for n in range(0, ND + 1)]
         j += [dict(kind="linear")]
         j += [dict(kind=k) for k in ("single", "double", "burst", "bijection")]
+        j += [dict(kind="reuse", n=n) for n in ((1, 2) if tier == "quick" else (1, 2, 3))]
         return j
 
     def bounds(self, tier):
@@ -182,7 +198,7 @@ class C20(Spec):
                     error_patterns="all single-bit, double-bit (<127 apart), burst (<=7) patterns in 16-byte messages")
 
     def reach_required(self, tier):
-        return ["table", "length-fold", "direct", "linear", "single", "double", "burst", "bijection"]
+        return ["table", "length-fold", "direct", "linear", "single", "double", "burst", "bijection", "reuse"]
 
     def path_fn(self, c, job):
         path(c, job)
